@@ -32,7 +32,7 @@ from typing import Any, Dict, List, Optional, Sequence, Tuple
 
 from .. import core, thx
 
-OPS = ("early", "flush", "subdiv", "none", "pause", "resume")
+OPS = ("early", "flush", "subdiv", "none", "pause", "resume", "restart")
 FORMATTERS = ("raw", "json", "quicklogger")
 CONFIGS = ("all", "two", "all+subdiv", "two+subdiv")
 _PATCHED = False
@@ -138,6 +138,7 @@ def execute(case, prefix: Sequence[int], line_level: bool) -> Dict[str, Any]:
     tempfile.tempdir = base
     res: Dict[str, Any] = {}
     handed: List[Any] = []
+    recordings: List[Tuple[str, List[Any]]] = [("run", handed)]
     Clock.t = 1000.0
     state_src: Dict[str, Any] = {"c": None, "idx": 0}
 
@@ -201,12 +202,18 @@ def execute(case, prefix: Sequence[int], line_level: bool) -> Dict[str, Any]:
                     i += 1
                     m = mk_msg(i, i % 3)
                 if m is not None and c._recording and not c._paused:
-                    handed.append(m)
+                    recordings[-1][1].append(m)
                 c.update(m)
             elif op == "pause":
                 c.pause()
             elif op == "resume":
                 c.resume()
+            elif op == "restart":
+                # a second recording on the same collection object (new directory): nothing may leak from the first
+                c.stop()
+                c.dir_fmt = f"run{len(recordings) + 1}"
+                recordings.append((c.dir_fmt, []))
+                c.start()
         state_src["idx"] = len(ops) + 1
         c.stop()
         state_src["idx"] = len(ops) + 2
@@ -227,7 +234,8 @@ def execute(case, prefix: Sequence[int], line_level: bool) -> Dict[str, Any]:
         if sched.horizon_hit:
             problems.append({"kind": "step-horizon-exceeded"})
         if not problems:
-            problems += verify(res, handed, fmt, base)
+            for dirname, msgs in recordings:
+                problems += verify(res, msgs, fmt, os.path.join(base, dirname))
     finally:
         c = res.get("c")
         if c is not None:
@@ -255,7 +263,7 @@ def verify(res, handed, fmt, base) -> List[Dict[str, Any]]:
     problems = []
     for ds in res["sets"]:
         want = [m for m in handed if ds.all_sub or m.type_id in ds.msg_types]
-        d = os.path.dirname(str(ds.file_path))
+        d = base
         stem = "fileA" if ds.name == "dA" else "fileB"
         ext = ds.formatter_cls.ext
         files = sorted(f for f in os.listdir(d) if f.startswith(stem) and f.endswith(ext))
@@ -409,6 +417,8 @@ def scripts(n: int) -> List[Tuple[str, ...]]:
             # resume without pause / pause twice add nothing new
             if "resume" in ops and "pause" not in ops[:ops.index("resume")]:
                 continue
+            if ops.count("restart") > 1 or (ops and ops[-1] == "restart" and len(ops) > 1 and ops[-2] == "restart"):
+                continue
             out.append(ops)
     return out
 
@@ -419,7 +429,7 @@ def plan(tier: str):
     combos = [(c, f) for c in CONFIGS for f in FORMATTERS]
     k = 0
     for ops in scripts(n):
-        triggers = sum(1 for o in ops if o in ("flush", "subdiv", "none"))
+        triggers = sum(1 for o in ops if o in ("flush", "subdiv", "none", "restart"))
         if len(ops) <= (2 if tier == "quick" else 3):
             chosen = combos
         else:
